@@ -413,6 +413,63 @@ func (w *world) opParse() {
 	}
 }
 
+// opParseBad parses a malformed frame on a pooled slice (the parser must refuse it),
+// then hands the slice back to the pool or keeps using it, like a link reader would.
+func (w *world) opParseBad() {
+	mt := msgTypes[w.r.IntN(len(msgTypes))]
+	swN, msgN, apxN := w.pickSizes(mt)
+	auth := 64
+	if mt.IsEncrypted() {
+		auth = 16
+	}
+	tag := w.newTag()
+	img := make([]byte, 0, 51+swN+msgN+auth+apxN)
+	img = append(img, 1, 9, 0, 0, byte(mt))
+	img = append(img, core.RandBytes(w.r, 43)...)
+	img = append(img, byte(swN))
+	img = append(img, w.tagBytes(tag, swN)...)
+	img = append(img, byte(msgN>>8), byte(msgN))
+	img = append(img, w.tagBytes(tag, msgN+auth+apxN)...)
+	// break a length field so that the declared sizes exceed the data
+	switch w.r.IntN(3) {
+	case 0:
+		img = img[:51+swN+msgN/2] // cut inside the message
+	case 1:
+		bad := len(img) + 1 + w.r.IntN(5000)
+		img[49+swN], img[50+swN] = byte(bad>>8), byte(bad)
+	default:
+		if swN < 200 {
+			img[48] = byte(swN + 50) // switch block length too big
+			img = img[:min(len(img), 49+swN+30)]
+		} else {
+			img = img[:60]
+		}
+	}
+	off := []int{2, 12}[w.r.IntN(2)]
+	w.trace = append(w.trace, fmt.Sprintf("parse-malformed(type=%d,len=%d)", mt, len(img)))
+	ps := w.b.GetPooledSlice(off + len(img) + 16)
+	if ps == nil {
+		return
+	}
+	copy(ps[off:], img)
+	f, err := w.b.ParseFrame(ps[off:off+len(img)], ps, off)
+	if err == nil {
+		// accepted after all (sizes happened to be consistent): treat as a normal frame and release it
+		f.ReturnToPool()
+		return
+	}
+	w.res.Count("malformed_parses_refused", 1)
+	// the bytes of the refused frame must never show up in a later frame
+	for rot := 0; rot < 8; rot++ {
+		var t [8]byte
+		for k := 0; k < 8; k++ {
+			t[k] = tag[(k+rot)%8]
+		}
+		w.retired[binary.BigEndian.Uint64(t[:])] = retInfo{frame: -1, tag: tag}
+	}
+	w.b.ReturnPooledSlice(ps)
+}
+
 func (w *world) pick() *shadow {
 	if len(w.live) == 0 {
 		return nil
@@ -644,8 +701,10 @@ func (w *world) runSequence(nops int, changeMargins bool) {
 			switch k := w.r.IntN(100); {
 			case k < 18:
 				w.opNew()
-			case k < 34:
+			case k < 31:
 				w.opParse()
+			case k < 34:
+				w.opParseBad()
 			case k < 48:
 				w.opClone()
 			case k < 58:
